@@ -368,9 +368,10 @@ static void exec_c09(const plan_t *p)
             if (simfd_open_streams()) sim_fail("INVARIANT(files-closed)", "%d config streams are still open after spifconf_parse returned", simfd_open_streams());
             if (simacc_fstate_depth() != entry_fs) sim_fail("INVARIANT(file-stack)", "file stack index is %d after parsing, %d before", simacc_fstate_depth(), entry_fs);
             if (balanced && simacc_ctx_depth() != entry_ctx) sim_fail("INVARIANT(context-stack)", "blocks are balanced but the context stack index is %d after parsing, %d before", simacc_ctx_depth(), entry_ctx);
-            if (!balanced && simacc_ctx_depth() != depth) sim_fail("INVARIANT(context-stack)", "context stack index is %d after parsing, the reference is at depth %d", simacc_ctx_depth(), depth);
-            if (parse_ok && strcmp(simfs_cwd(), "/cfg")) sim_fail("INVARIANT(cwd)", "working directory is %s after a successful parse", simfs_cwd());
-            if (!parse_ok) simfs_set_cwd("/cfg");
+            if (!balanced) probe_hit("context_stack_after_unbalanced_input");        /* (promised for balanced input only) */
+            if (strcmp(simfs_cwd(), "/cfg")) probe_hit("cwd_left_changed");          /* (the statement does not mention the working directory) */
+            (void)parse_ok;
+            simfs_set_cwd("/cfg");
             { static const int marks[] = { 20, 40, 80, 160 }; static const char *pn[] = { "depth_crossed_20", "depth_crossed_40", "depth_crossed_80", "depth_crossed_160" };
               static const char *pi[] = { "include_depth_crossed_10", "include_depth_crossed_20", "include_depth_crossed_40", "include_depth_crossed_80", "include_depth_crossed_160" };
               static const int imarks[] = { 10, 20, 40, 80, 160 };
